@@ -428,3 +428,56 @@ PROPS["C12"] = {
     "cases": c12_cases,
     "explanation": "pair oracle on the implementation: eraseHints(output under optimize=true) = output under optimize=false, syntactically, hence under every semantics",
 }
+
+
+# ---- C13 ---------------------------------------------------------------------------------------------------
+C13_VALUES = ['="s"', "", "={1}", "={[1, 's']}", "={{a: 1}}", "={x}", "={() => 1}", "={[x]}"]
+C13_NAMES = ["class", "style", "key", "ref", "onClick", "onInput", "onUpdate:modelValue", "title", "xlink:href", "on"]
+C13_SPECIAL = ["{...obj}", "{...{a: x}}", "v-model={[val, x]}", "v-model={val}", "v-foo={x}", "v-show={x}", "v-html={x}", "v-text={x}", "on={{click: fn1}}", "nativeOn={x}"]
+
+
+def c13_cases(tier, seed):
+    r = gen.Rng(seed)
+    run = corpus_cases("C13") + fixture_cases()
+    alphabet = [n + v for n in C13_NAMES for v in C13_VALUES] + C13_SPECIAL       # 90 symbols
+    kmax = budget(tier, 2, 3, 3)
+    n_exh = 0
+    for host in ["div", "Comp"]:
+        for k in range(0, kmax + 1):
+            combos = itertools.combinations_with_replacement(range(len(alphabet)), k)
+            for ci, combo in enumerate(combos):
+                if k == 3 and (ci % (40 if tier != "thorough" else 3)):
+                    continue
+                if k == 2 and tier == "quick" and ci % 2:
+                    continue
+                attrs = [alphabet[i] for i in combo]
+                if r.chance(0.5):
+                    attrs = attrs[::-1]
+                o = {"optimize": True}
+                if ci % 3 == 1:
+                    o["transformOn"] = True
+                if ci % 5 == 2:
+                    o["mergeProps"] = False
+                run.append({"id": "e%d" % len(run), "src": gen.PRELUDE + "const v = <%s %s/>;\n" % (host, " ".join(attrs)), "tsx": False, "opts": o})
+                n_exh += 1
+    # nested component trees for slot flags
+    leafs = ["{val}", "{x}", "{f()}", "text", "<i/>", "{...list}", "{...y}", "{cls}{x}", ""]
+    for d1, d2, d3 in itertools.product(leafs, repeat=3):
+        src = gen.PRELUDE + "const v = <Comp>%s<Foo>%s<Bar>%s</Bar></Foo>{<Unk>{obj}</Unk>}</Comp>;\n" % (d1, d2, d3)
+        run.append({"id": "n%d" % len(run), "src": src, "tsx": False, "opts": {"optimize": True, "enableObjectSlots": len(run) % 2 == 0}})
+    def o13(rr):
+        o = std_opts(rr); o["optimize"] = True; return o
+    mods, hist = gen_modules(r, budget(tier, 2000, 50000), GENERAL_PROFILE, o13)
+    run += mods
+    return [], run, {"rule": "fixtures + attribute multisets of size <= %d over a 90-symbol alphabet ({class,style,key,ref,onClick,onInput,onUpdate:modelValue,title,xlink:href,on} x {static,boolean,constant literal/array/object,dynamic expr/arrow/array} + spread, object-literal spread, computed-key v-model, v-model, directive, v-show, v-html, v-text, transformOn on/nativeOn) x element/component (%d cases; size 2 sampled 1/2 in quick, size 3 sampled) + 729 nested component trees for slot flags + %d generated modules, all under optimize=true" % (kmax, n_exh, len(mods)),
+                     "exhaustive": False, "exhaustive_part": "all multisets of size <= 1 (quick) / <= 2 (thorough)", "histogram": dict(hist.most_common(40))}
+
+
+PROPS["C13"] = {
+    "theorems": ["C13_flags_allowed", "C13_dynamic_keys_full", "C13_need_patch", "C13_spread_sets_dynamic_keys",
+                 "C13_transformOn_sets_dynamic_keys", "C13_plain_monotone", "C13_plain_cover", "C13_plain_cover_component",
+                 "C13_props_bit", "C13_class_style_bits", "C13_slot_flag_range", "C13_stack_invariant_push",
+                 "C13_stack_invariant_fill", "C13_fill_marks_all"],
+    "cases": c13_cases,
+    "explanation": "oracle: the clauses of the statement evaluated on every vnode call of the real output (flag is a union of element-level bits; without FULL_PROPS every non-constant prop except key/ref is covered by CLASS/STYLE on elements or by PROPS + the dynamic-prop list; spread/merged/computed-key props imply FULL_PROPS or no flag; the dynamic-prop list names present props only; ref/directive never with HYDRATE_EVENTS alone; `_` is 1 or 2, and 2 when a direct child - of that slot or of one reached by direct JSX nesting - is an identifier bound in the file; no hint without optimize)",
+}
